@@ -11,7 +11,7 @@ from .speclib import LoopStepDone
 LIB_EXC = "odata_query.exceptions.ODataException"
 COVER_LEMMAS = True
 UNFOLD_ROUNDS = 4
-MAX_REFINE = 8
+MAX_REFINE = int(os.environ.get("VC_MAX_REFINE", "40"))
 
 
 def src_of(fact):
